@@ -947,40 +947,68 @@ def inGoFragment (env : Env) (file : AFile) (n : Nat) (f : AFn) : Bool :=
 
 /-! ### the part of the fragment covered by the typing half of T2 (`compile_wellformed_typed_partial`) -/
 
-/-- unit, bool, string, or an integer type of a width Go has -/
+mutual
+/-- the types of the typing half: unit, bool, string, an integer type of a width Go has, struct types (closure
+    environments included), function types, references, tuples and arrays (of at most 10^8 elements: Go rejects the
+    declaration of a longer one) of those -/
 def stdTy : Ty → Bool
   | .unit => true
   | .bool => true
   | .string => true
   | .int b _ => b == 8 || b == 16 || b == 32 || b == 64
+  | .struct _ => true
+  | .func ps r => stdTys ps && stdTy r
+  | .ref e => stdTy e
+  | .tuple ts => stdTys ts
+  | .array n e => decide (n ≤ 100000000) && stdTy e
   | _ => false
+def stdTys : List Ty → Bool
+  | [] => true
+  | t :: ts => stdTy t && stdTys ts
+end
 
 def stdImm : Imm → Bool
   | .var _ t => stdTy t
   | .prim _ t => stdTy t
   | .tag _ _ => false
 
+/-- the second argument (the index of `array_get` / `array_set`) is an `int32` -/
+def idxI32 (args : List Imm) : Bool :=
+  match args with
+  | _ :: i :: _ => scalarEq i.ty (.int 32 true)
+  | _ => false
+
 mutual
-/-- stage (a): scalars, operators, calls of functions / printing builtins, `let`, `if`, `while` -/
-def stdC : CExpr → Bool
+/-- scalars, operators, calls of functions (also through a local of function type) / printing builtins / the reference and
+    array helpers (an array index of type `int32`: the helper's parameter type), construction and field access of structs,
+    tuples and arrays, `let`, `if`, `while` -/
+def stdC (env : Env) (file : AFile) : CExpr → Bool
   | .imm i => stdImm i
   | .un _ e ty => stdImm e && stdTy ty
   | .bin _ l r ty => stdImm l && stdImm r && stdTy ty
   | .call f args ty =>
     args.all stdImm && stdTy ty &&
     (match f with
-     | .var name _ => !refNames.contains name && !arrNames.contains name && !vecNames.contains name
+     | .var name _ =>
+       !vecNames.contains name &&
+       (!arrNames.contains name || idxI32 args)
      | _ => false)
-  | .ite c t e ty => stdImm c && stdA t && stdA e && stdTy ty
-  | .while c b ty => stdA c && stdA b && stdTy ty
+  | .constr (.struct _) args ty => args.all stdImm && stdTy ty
+  | .cget e (.struct sn) _ ty => (goodStructs env).contains sn && stdImm e && stdTy ty
+  | .tuple items ty => items.all stdImm && stdTy ty
+  | .proj e _ ty => tupleTyOK env file e.ty && stdImm e && stdTy ty
+  | .array items ty => items.all stdImm && stdTy ty
+  | .ite c t e ty => stdImm c && stdA env file t && stdA env file e && stdTy ty
+  | .while c b ty => stdA env file c && stdA env file b && stdTy ty
   | _ => false
-def stdA : AExpr → Bool
-  | .ret c => stdC c
-  | .letE _ v b _ => stdC v && stdTy v.annTy && stdA b
+def stdA (env : Env) (file : AFile) : AExpr → Bool
+  | .ret c => stdC env file c
+  | .letE _ v b _ => stdC env file v && stdTy v.annTy && stdA env file b
 end
 
 /-- the hypothesis of the typing half of T2 on a function (besides membership in a closed set `G`) -/
-def stdFn (f : AFn) : Bool := f.params.all (fun p => stdTy p.2) && stdTy f.ret && stdA f.body
+def stdFn (env : Env) (file : AFile) (f : AFn) : Bool :=
+  f.params.all (fun p => stdTy p.2) && stdTy f.ret && stdA env file f.body
 
 /-! ### why a function is outside (reporting only) -/
 
